@@ -1,7 +1,6 @@
 package tsm1
 
 import (
-	"sync"
 	"sync/atomic"
 
 	vrt "github.com/influxdata/influxdb/v2/internal/zzverifrt"
@@ -29,9 +28,9 @@ func verifHas(vals Values, t, v int64) bool {
 	return r
 }
 
-// VerifC09_Conc*: goroutines run the cache operations concurrently, under the protocol of the
-// engine (Engine.WritePoints writes under Engine.mu.RLock, Engine.WriteSnapshot takes the snapshot under
-// Engine.mu.Lock; ClearSnapshot and DeleteRange hold no engine lock). Every schedule with up to PREEMPT
+// VerifC09_Conc*: goroutines run the cache operations concurrently, on the Cache alone (no engine lock
+// around them: since /repo commit e32fe61f43 WriteMulti keeps the cache's read lock while it writes, so
+// the cache no longer relies on Engine.mu to keep writes and Snapshot apart). Every schedule with up to PREEMPT
 // pre-emptions at the mutex/atomic operations of package tsm1 is explored. After all goroutines ended:
 // no acknowledged write is lost unless it was flushed or deleted, nothing appears that was not written,
 // and Size() equals the bytes of the values and keys actually held.
@@ -51,18 +50,13 @@ func VerifC09_ConcWriteDeleteExisting() { verifC09Concurrent(4) }
 // holds the other's value; the sizes account for exactly what is held.
 func VerifC09_ConcTypeConflict() {
 	c := verifNewCache(0)
-	var emu sync.RWMutex
 	var errI, errF error
 	ti, vi, tf := vrt.Int64("ti"), vrt.Int64("vi"), vrt.Int64("tf")
 	vrt.Go(func() {
-		emu.RLock()
 		errI = c.WriteMulti(map[string][]Value{"k": {NewIntegerValue(ti, vi)}, "own_i": {NewIntegerValue(1, 1)}})
-		emu.RUnlock()
 	})
 	vrt.Go(func() {
-		emu.RLock()
 		errF = c.WriteMulti(map[string][]Value{"k": {NewFloatValue(tf, 1.5)}, "own_f": {NewIntegerValue(2, 2)}})
-		emu.RUnlock()
 	})
 	vrt.Join()
 	vrt.Assert((errI == nil) != (errF == nil), "exactly one of two conflicting writers is refused")
@@ -91,16 +85,13 @@ func VerifC09_ConcLimit() {
 	vrt.Assume(limit >= 17)
 	vrt.Assume(limit < 33) // the second write (17 held + 16 added) does not fit
 	c := verifNewCache(limit)
-	var emu sync.RWMutex
 	var err [2]error
 	for i := 0; i < 2; i++ {
 		i := i
 		k := []string{"a", "b"}[i]
 		t := vrt.Int64(vrt.N("t", i))
 		vrt.Go(func() {
-			emu.RLock()
 			err[i] = c.WriteMulti(map[string][]Value{k: {NewIntegerValue(t, 7)}})
-			emu.RUnlock()
 		})
 	}
 	vrt.Join()
@@ -115,7 +106,6 @@ func VerifC09_ConcLimit() {
 
 func verifC09Concurrent(scen int) {
 	c := verifNewCache(0)
-	var emu sync.RWMutex // stands for Engine.mu
 	keys := []string{"a", "bb"}
 	type wr struct {
 		k    int
@@ -125,9 +115,7 @@ func verifC09Concurrent(scen int) {
 	}
 	writer := func(w *wr) func() {
 		return func() {
-			emu.RLock()
 			w.err = c.WriteMulti(map[string][]Value{keys[w.k]: {NewIntegerValue(w.t, w.v)}})
-			emu.RUnlock()
 			w.done = true
 		}
 	}
@@ -138,9 +126,7 @@ func verifC09Concurrent(scen int) {
 	var ws []*wr
 	snapTaken, cleared, success := false, false, false
 	snapshotter := func() {
-		emu.Lock()
 		_, err := c.Snapshot()
-		emu.Unlock()
 		vrt.Assert(err == nil, "Snapshot succeeds")
 		snapTaken = true
 		c.ClearSnapshot(success)
@@ -174,9 +160,7 @@ func verifC09Concurrent(scen int) {
 		// p0 was written before; the delete is aimed at its key
 		w0 := newWr(0)
 		ws = append(ws, w0)
-		emu.RLock()
 		w0.err = c.WriteMulti(map[string][]Value{keys[w0.k]: {NewIntegerValue(w0.t, w0.v)}})
-		emu.RUnlock()
 		w0.done = true
 		w1 := newWr(1)
 		vrt.Assume(vrt.Or(w0.k != w1.k, w0.t != w1.t))
@@ -242,7 +226,6 @@ func verifC09Concurrent(scen int) {
 // after the read ended, and what it returns is sorted without duplicates.
 func VerifC09_ConcReadDuringSnapshot() {
 	c := verifNewCache(0)
-	var emu sync.RWMutex
 	t0, v0, t1, v1 := vrt.Int64("t0"), vrt.Int64("v0"), vrt.Int64("t1"), vrt.Int64("v1")
 	vrt.Assume(t0 != t1)
 	vrt.Assert(c.WriteMulti(map[string][]Value{"k": {NewIntegerValue(t0, v0)}}) == nil, "first write")
@@ -252,16 +235,12 @@ func VerifC09_ConcReadDuringSnapshot() {
 	var got Values
 	vrt.Go(func() {
 		wStart = tick()
-		emu.RLock()
 		err := c.WriteMulti(map[string][]Value{"k": {NewIntegerValue(t1, v1)}})
-		emu.RUnlock()
 		vrt.Assert(err == nil, "a write below the limit is accepted")
 		wEnd = tick()
 	})
 	vrt.Go(func() {
-		emu.Lock()
 		_, err := c.Snapshot()
-		emu.Unlock()
 		vrt.Assert(err == nil, "Snapshot succeeds")
 		c.ClearSnapshot(false)
 	})
